@@ -13,6 +13,9 @@ type key = cesium.ChannelKey
 const (
 	kU0 key = 1 // unary index channels (exclusive): one owner writer, optional intruder
 	kU1 key = 2
+	kD0 key = 3  // unary data channels: kD0, kD1 are indexed by kU0, kD2 by kU1. A frame that
+	kD1 key = 4  // touches an index group must carry every channel of the group its writer
+	kD2 key = 5  // has open (the engine's rule), in any order.
 	kV0 key = 11 // virtual channels (shared): authority 200 = authorized, 100 = not
 	kV1 key = 12
 	kV2 key = 13
@@ -26,7 +29,9 @@ const (
 var (
 	unaryKeys = []key{kU0, kU1}
 	virtKeys  = []key{kV0, kV1, kV2, kV3}
-	dataKeys  = []key{kU0, kU1, kV0, kV1, kV2, kV3}
+	dataKeys  = []key{kU0, kU1, kD0, kD1, kD2, kV0, kV1, kV2, kV3}
+	groupOf   = map[key][]key{kU0: {kU0, kD0, kD1}, kU1: {kU1, kD2}}
+	indexOf   = map[key]key{kD0: kU0, kD1: kU0, kD2: kU1}
 )
 
 const (
@@ -121,6 +126,38 @@ func subset(r *prng.R, from []key, num, den int) []key {
 	return out
 }
 
+// pickUnits chooses what one write carries: every virtual channel is a unit of its own, an
+// index group is one unit made of all the channels of the group the writer has open. The
+// keys are returned in a random order (the engine walks a frame in its own order).
+func pickUnits(r *prng.R, w writerPlan) []key {
+	var units [][]key
+	for _, u := range unaryKeys {
+		var g []key
+		for _, k := range append(append([]key{}, w.Owns...), w.Intrudes...) {
+			if k == u || indexOf[k] == u {
+				g = append(g, k)
+			}
+		}
+		if len(g) > 0 {
+			units = append(units, g)
+		}
+	}
+	for _, v := range w.Virt {
+		units = append(units, []key{v})
+	}
+	var out []key
+	for _, u := range units {
+		if r.Chance(1, 2) {
+			out = append(out, u...)
+		}
+	}
+	if len(out) == 0 {
+		out = append(out, prng.Pick(r, units)...)
+	}
+	prng.Shuffle(r, out)
+	return out
+}
+
 func genPlan(r *prng.R, nonBlocking, thorough bool) runPlan {
 	p := runPlan{NonBlocking: nonBlocking}
 	p.Buffer = []int{1, 8, 1000}[r.Intn(3)]
@@ -137,6 +174,7 @@ func genPlan(r *prng.R, nonBlocking, thorough bool) runPlan {
 		maxWrites = 14 // every frame may cost one slow-consumer timeout per stalled streamer
 	}
 	owner := map[key]int{}
+	owned := map[key][]key{} // index -> the channels of its group the owner holds
 	for i := 0; i < nw; i++ {
 		w := writerPlan{ID: i + 1, Mode: 1}
 		switch r.Intn(6) {
@@ -148,10 +186,32 @@ func genPlan(r *prng.R, nonBlocking, thorough bool) runPlan {
 		for _, u := range unaryKeys {
 			switch {
 			case owner[u] == 0 && r.Chance(1, 2):
+				// the owner holds the index and some of its data channels
 				owner[u] = w.ID
 				w.Owns = append(w.Owns, u)
+				for _, d := range groupOf[u][1:] {
+					if r.Chance(2, 3) {
+						w.Owns = append(w.Owns, d)
+					}
+				}
+				for _, k := range w.Owns {
+					if k == u || indexOf[k] == u {
+						owned[u] = append(owned[u], k)
+					}
+				}
 			case owner[u] != 0 && r.Chance(1, 3):
-				w.Intrudes = append(w.Intrudes, u)
+				// an intruder opens some of the channels the owner holds, with or without
+				// the index: it is refused on every one of them
+				var in []key
+				for _, k := range owned[u] {
+					if r.Chance(2, 3) {
+						in = append(in, k)
+					}
+				}
+				if len(in) == 0 {
+					in = []key{prng.Pick(r, owned[u])}
+				}
+				w.Intrudes = append(w.Intrudes, in...)
 			}
 		}
 		w.Virt = subset(r, virtKeys, 1, 2)
@@ -166,10 +226,7 @@ func genPlan(r *prng.R, nonBlocking, thorough bool) runPlan {
 		cur := w.VirtAuth
 		for j := 0; j < nWrites; j++ {
 			wp := writePlan{N: r.Range(1, 2), Yield: r.Intn(4)}
-			wp.Keys = subset(r, w.keys(), 1, 2)
-			if len(wp.Keys) == 0 {
-				wp.Keys = []key{prng.Pick(r, w.keys())}
-			}
+			wp.Keys = pickUnits(r, w)
 			if len(w.Virt) > 0 && r.Chance(1, 12) {
 				cur = authHigh + authLow - cur
 				wp.FlipTo = cur
